@@ -1062,6 +1062,34 @@ func observeCache(c *cdi.Cache, probes []string, refresh bool) cacheObs {
 				o.RefErr = c.Refresh() != nil
 			}
 		}
+		// the directory errors as they stand right after Refresh(), before any query has run: "an entry disappears at the
+		// first refresh after its cause is gone" is a statement about the refresh, not about the queries that follow it
+		var early []string
+		if refresh {
+			for k := range c.GetSpecDirErrors() {
+				early = append(early, k)
+			}
+			sort.Strings(early)
+			defer func() {
+				// only an entry which outlived its cause counts: reported right after Refresh() although the directory is
+				// there, and gone once a query has run (the watcher goroutine may legitimately change the set in the other
+				// direction between the two readings)
+				late := map[string]bool{}
+				for _, k := range o.DirErrs {
+					late[k] = true
+				}
+				stale := false
+				for _, k := range early {
+					if st, err := os.Stat(k); !late[k] && err == nil && st.IsDir() {
+						stale = true
+					}
+				}
+				if stale && o.Panic == "" {
+					o.DirErrs = append([]string{}, early...)
+					o.DirErrs = append(o.DirErrs, "<<directory errors right after Refresh() differ from those after the queries>>")
+				}
+			}()
+		}
 		o.Devices = c.ListDevices()
 		for _, n := range probes {
 			p := probeObs{Name: n}
@@ -1171,6 +1199,10 @@ func settle(c *cdi.Cache, dirs []string, probes []string, deadline time.Duration
 	for first := true; ; first = false {
 		got = observeCache(c, probes, true)
 		if got.key() == want.key() && fmt.Sprint(got.DirErrs) == fmt.Sprint(wantDirErrs) {
+			return got
+		}
+		if first && got.Panic == "" && len(got.DirErrs) > 0 && strings.HasPrefix(got.DirErrs[len(got.DirErrs)-1], "<<directory errors right after Refresh()") {
+			// likewise the directory errors the first Refresh() left behind (see observeCache)
 			return got
 		}
 		if first && got.RefErr != want.RefErr && got.Panic == "" {
